@@ -174,6 +174,7 @@ def _fix(ent: Any) -> Dict[str, Dict[str, str]]:
 
 def replay_edges(ctx: Ctx, edges: List[Dict[str, Any]], network: str = "haversine") -> Tuple[int, int]:
     real = Real(network)
+    n_viol0 = len(ctx.violations)
     sims = {_key({k: {} for k in KINDS}): real.empty}
     pending = list(edges)
     done = 0
@@ -205,7 +206,9 @@ def replay_edges(ctx: Ctx, edges: List[Dict[str, Any]], network: str = "haversin
             if kt not in sims and not bad:
                 sims[kt] = new
         pending = rest
-    if pending:
+    if pending and len(ctx.violations) == n_viol0:
+        # (when a transition went wrong its successor state is not kept, so what lies behind it is not replayed: the
+        # violation already recorded explains that - only an unexplained gap is a failure of the machinery)
         raise MachineryError(f"{len(pending)} exported transitions start in a state the replay never reached")
     return done, refused
 
